@@ -22,6 +22,19 @@ type Ctx struct {
 	splits map[string][2]chunk
 	refine map[string]sliceRep
 	uOf    map[string]string // signed term -> its unsigned (two's complement) representation
+	rawFacts [][]string      // typing facts collected while building the body of a quantified hypothesis
+	quants   map[string]*quantInfo
+	qorder   []string
+	defs     map[string]string // define-fun name -> body
+}
+
+// quantInfo remembers a universally quantified formula built from a spec, so
+// that it can be instantiated by name at the skolem constants of a goal.
+type quantInfo struct {
+	src  []string // binder names as written in the spec
+	smt  []string // the SMT binder names
+	body string
+	at   int
 }
 
 // Obl is one proof obligation.
@@ -43,10 +56,11 @@ type Obl struct {
 	Detail  string
 	Bounded string // non-empty: bounded obligation, with the bound
 	rootFn  string
+	extra   []string // skolem constants and hypothesis instances for a quantified goal
 }
 
 func newCtx() *Ctx {
-	c := &Ctx{cons: map[string]string{}, maxv: map[string]*big.Int{}, lowz: map[string]int{}, decls: map[string]bool{}, reps: map[string]sliceRep{}, splits: map[string][2]chunk{}, refine: map[string]sliceRep{}, uOf: map[string]string{}}
+	c := &Ctx{cons: map[string]string{}, maxv: map[string]*big.Int{}, lowz: map[string]int{}, decls: map[string]bool{}, reps: map[string]sliceRep{}, splits: map[string][2]chunk{}, refine: map[string]sliceRep{}, uOf: map[string]string{}, quants: map[string]*quantInfo{}, defs: map[string]string{}}
 	c.lines = append(c.lines,
 		"(define-sort HP () (Array Int (Array Int Int)))",
 		"(declare-fun tag (Int) Int)",
@@ -102,6 +116,7 @@ func (c *Ctx) def(sort, expr string) string {
 	name := fmt.Sprintf("t!%d", c.n)
 	c.lines = append(c.lines, fmt.Sprintf("(define-fun %s () %s %s)", name, sort, expr))
 	c.cons[key] = name
+	c.defs[name] = expr
 	return name
 }
 
@@ -110,7 +125,19 @@ func (c *Ctx) B(format string, a ...any) string { return c.def("Bool", fmt.Sprin
 func (c *Ctx) H(format string, a ...any) string { return c.def("HP", fmt.Sprintf(format, a...)) }
 
 func (c *Ctx) assume(pc, cond string) {
-	if cond == "true" || c.raw > 0 {
+	if cond == "true" {
+		return
+	}
+	if c.raw > 0 {
+		// under a binder: facts cannot be asserted at top level; a quantified
+		// hypothesis collects them into its own body (see Env.eval, forall)
+		if n := len(c.rawFacts); n > 0 {
+			if pc == "true" {
+				c.rawFacts[n-1] = append(c.rawFacts[n-1], cond)
+			} else {
+				c.rawFacts[n-1] = append(c.rawFacts[n-1], fmt.Sprintf("(=> %s %s)", pc, cond))
+			}
+		}
 		return
 	}
 	if pc == "true" {
@@ -126,6 +153,7 @@ func (c *Ctx) oblige(o *Obl, pc, cond string) *Obl {
 	o.at = len(c.lines)
 	o.goal = fmt.Sprintf("(=> %s %s)", pc, cond)
 	o.ctx = c
+	c.skolemize(o, pc, cond)
 	if o.Expect == "" {
 		o.Expect = "unsat"
 	}
@@ -265,4 +293,65 @@ func (c *Ctx) getLowz(t string) int {
 		return int(v.TrailingZeroBits())
 	}
 	return c.lowz[t]
+}
+
+// skolemize: when the goal is (or implies) a universally quantified spec
+// formula, replace its bound variables by fresh constants and add, for every
+// quantified spec formula known so far whose binder names are among the
+// goal's, the instance at those constants. (forall x. B) => B[c] is a
+// tautology, so the added assertions are sound whatever the polarity of the
+// hypothesis; they only spare the solver the search for the instance.
+func (c *Ctx) skolemize(o *Obl, pc, cond string) {
+	guard := ""
+	q := c.quants[cond]
+	if q == nil {
+		if d, ok := c.defs[cond]; ok && strings.HasPrefix(d, "(=> ") {
+			inner := strings.TrimSuffix(strings.TrimPrefix(d, "(=> "), ")")
+			if i := strings.LastIndex(inner, " "); i > 0 {
+				if qq := c.quants[inner[i+1:]]; qq != nil {
+					q, guard = qq, inner[:i]
+				}
+			}
+		}
+	}
+	if q == nil {
+		return
+	}
+	sk := map[string]string{}
+	var extra []string
+	c.n++
+	for i, src := range q.src {
+		name := fmt.Sprintf("sk_%s!%d", sanitize(src), c.n)
+		sk[src] = name
+		extra = append(extra, fmt.Sprintf("(declare-const %s Int)", name))
+		_ = i
+	}
+	inst := func(qi *quantInfo) string {
+		b := qi.body
+		for i, src := range qi.src {
+			b = strings.ReplaceAll(b, qi.smt[i], sk[src])
+		}
+		return b
+	}
+	for _, name := range c.qorder {
+		qi := c.quants[name]
+		if qi == q || qi.at > len(c.lines) {
+			continue
+		}
+		ok := true
+		for _, src := range qi.src {
+			if _, have := sk[src]; !have {
+				ok = false
+			}
+		}
+		if ok {
+			extra = append(extra, fmt.Sprintf("(assert (=> %s %s))", name, inst(qi)))
+		}
+	}
+	body := inst(q)
+	if guard != "" {
+		body = fmt.Sprintf("(=> %s %s)", guard, body)
+	}
+	o.extra = extra
+	o.goal = fmt.Sprintf("(=> %s %s)", pc, body)
 }
